@@ -187,6 +187,8 @@ def check(run, views, tier):
             gt = ga["variants"][0]["fields"][0]["ty"]
             run.ob("R-CONTAINER", "group list is a Vec", gt.startswith("std::vec::Vec<ipp::attribute::IppAttributeGroup"), gt, key="R-CONTAINER|groups-type")
         check_ordered(run, F)
+        from .. import codecrules as _cr
+        _cr.r_mapkey(run, F)
         # ---- the value iterator ------------------------------------------------------------
         ib = F.body(INTO_ITER)
         if ib is None:
